@@ -57,7 +57,9 @@ func (s *publishSubjectImpl[T]) Subscribe(destination Observer[T]) Subscription 
 func (s *publishSubjectImpl[T]) SubscribeWithContext(subscriberCtx context.Context, destination Observer[T]) Subscription {
 	subscription := NewSubscriber(destination)
 
+	verifPoint("subject_publish:SubscribeWithContext:lock#0", s)
 	s.mu.Lock()
+	defer verifPoint("subject_publish:SubscribeWithContext:ret#0", s)
 	defer s.mu.Unlock()
 
 	switch s.status {
@@ -95,6 +97,7 @@ func (s *publishSubjectImpl[T]) Next(value T) {
 
 // Implements Observer.
 func (s *publishSubjectImpl[T]) NextWithContext(ctx context.Context, value T) {
+	verifPoint("subject_publish:NextWithContext:lock#0", s)
 	s.mu.Lock()
 
 	if s.status == KindNext {
@@ -104,6 +107,7 @@ func (s *publishSubjectImpl[T]) NextWithContext(ctx context.Context, value T) {
 	}
 
 	s.mu.Unlock()
+	verifPoint("subject_publish:NextWithContext:unlocked#0", s)
 }
 
 // Implements Observer.
@@ -113,6 +117,7 @@ func (s *publishSubjectImpl[T]) Error(err error) {
 
 // Implements Observer.
 func (s *publishSubjectImpl[T]) ErrorWithContext(ctx context.Context, err error) {
+	verifPoint("subject_publish:ErrorWithContext:lock#0", s)
 	s.mu.Lock()
 
 	if s.status == KindNext {
@@ -124,6 +129,7 @@ func (s *publishSubjectImpl[T]) ErrorWithContext(ctx context.Context, err error)
 	}
 
 	s.mu.Unlock()
+	verifPoint("subject_publish:ErrorWithContext:unlocked#0", s)
 	s.unsubscribeAll()
 }
 
@@ -134,6 +140,7 @@ func (s *publishSubjectImpl[T]) Complete() {
 
 // Implements Observer.
 func (s *publishSubjectImpl[T]) CompleteWithContext(ctx context.Context) {
+	verifPoint("subject_publish:CompleteWithContext:lock#0", s)
 	s.mu.Lock()
 
 	if s.status == KindNext {
@@ -144,6 +151,7 @@ func (s *publishSubjectImpl[T]) CompleteWithContext(ctx context.Context) {
 	}
 
 	s.mu.Unlock()
+	verifPoint("subject_publish:CompleteWithContext:unlocked#0", s)
 	s.unsubscribeAll()
 }
 
@@ -171,7 +179,9 @@ func (s *publishSubjectImpl[T]) CountObservers() int {
 
 // Implements Observer.
 func (s *publishSubjectImpl[T]) IsClosed() bool {
+	verifPoint("subject_publish:IsClosed:lock#0", s)
 	s.mu.Lock()
+	defer verifPoint("subject_publish:IsClosed:ret#0", s)
 	defer s.mu.Unlock()
 
 	return s.status != KindNext
@@ -179,7 +189,9 @@ func (s *publishSubjectImpl[T]) IsClosed() bool {
 
 // Implements Observer.
 func (s *publishSubjectImpl[T]) HasThrown() bool {
+	verifPoint("subject_publish:HasThrown:lock#0", s)
 	s.mu.Lock()
+	defer verifPoint("subject_publish:HasThrown:ret#0", s)
 	defer s.mu.Unlock()
 
 	return s.status == KindError
@@ -187,7 +199,9 @@ func (s *publishSubjectImpl[T]) HasThrown() bool {
 
 // Implements Observer.
 func (s *publishSubjectImpl[T]) IsCompleted() bool {
+	verifPoint("subject_publish:IsCompleted:lock#0", s)
 	s.mu.Lock()
+	defer verifPoint("subject_publish:IsCompleted:ret#0", s)
 	defer s.mu.Unlock()
 
 	return s.status == KindComplete
